@@ -16,7 +16,7 @@ CHECKS = {
   "DESIGN.md section 4 C04"),
  "C01": ("model_checking",
   "explicit-state BFS over add sequences on the real sketch x exhaustive quantile probes vs exact order statistics",
-  "All sequences of bounded length of Add(v) over a value alphabet derived from each mapping (bin edges and their float predecessors, range ends, sub-minimum magnitudes, zeros, duplicates) are executed on real sketches (3 mapping kinds x alphas x 3 store kinds); in every distinct state every quantile of Q(n) is compared with the exact order statistics at floor/ceil of q(n-1) within alpha plus a stated rounding allowance.",
+  "All sequences of bounded length of Add(v) over a value alphabet derived from each mapping (bin edges and their float predecessors, range ends, sub-minimum magnitudes, zeros, duplicates) are executed on real sketches (3 mapping kinds x alphas x 3 store kinds), also below macro seeds of 70-140 values and on sketches built by the convenience constructors; in every distinct state every quantile of Q(n) is compared with the exact order statistics at floor/ceil of q(n-1) within alpha plus a stated rounding allowance.",
   "Trusted: the order-statistics oracle, the tolerance policy of DESIGN.md section 5. Not covered: inputs longer than the bound, values off the alphabet (bin membership at every edge is C03's job).",
   "DESIGN.md section 4 C01"),
  "C02": ("model_checking",
@@ -26,12 +26,12 @@ CHECKS = {
   "DESIGN.md section 4 C02"),
  "C05": ("model_checking",
   "explicit-state BFS over operation histories on the real collapsing stores vs folding reference, span and no-panic clauses",
-  "As C04 for the lowest- and highest-collapsing stores with bin limits 1..8 (quick) up to 2048 (thorough), partnered with every store kind and with collapsing stores of other limits, from seeds that include a partner wider than N merged into an empty or cleared receiver; every state equals the folding reference, spans at most N indexes, and no transition panics.",
+  "As C04 for the lowest- and highest-collapsing stores with bin limits 1..8 (quick) up to 2048 (thorough), partnered with every store kind and with collapsing stores of other limits, from seeds that include a partner wider than N merged into an empty or cleared receiver; every state equals the folding reference, spans at most N indexes, and no transition panics; sketch-level worlds (also built by the LogCollapsing* constructors) compare bins with the folded reference and keep the accuracy clause for retained bins.",
   "Trusted: the folding reference (fold keys beyond max-N+1 / min+N-1 into the edge). Not covered: histories deeper than the bound below each seed.",
   "DESIGN.md section 4 C05"),
  "C10": ("model_checking",
   "explicit-state BFS over histories of two exact-statistics sketches vs the absorbed (value, weight) multiset",
-  "Every bounded history of Add / AddWithCount (incl. weight 0 and refused values) / MergeWith / Copy / Clear / Reweight / ChangeMapping with scale / encode-decode / DecodeAndMergeWith on real sketches with exact summary statistics; in every distinct state count, min, max are compared exactly, the sum against a 2000-bit reference within 16 ulps of the total of |value*weight|, emptiness, and every quantile against the plain answer clamped to [min,max].",
+  "Every bounded history of Add / AddWithCount (incl. weight 0 and refused values) / MergeWith / Copy / Clear / Reweight / ChangeMapping with scale / encode-decode / DecodeAndMergeWith on real sketches with exact summary statistics; in every distinct state count, min, max are compared exactly, the sum against a 2000-bit reference within 16 ulps of the total of |value*weight|, emptiness, and every quantile against the plain answer clamped to [min,max]; one world is built by the exact-variant constructors.",
   "Trusted: the multiset reference. Not covered: histories deeper than the bound; non-dyadic weights.",
   "DESIGN.md section 4 C10"),
  "C11": ("model_checking",
@@ -41,17 +41,17 @@ CHECKS = {
   "DESIGN.md section 4 C11"),
  "C12": ("model_checking",
   "state invariant evaluated on every state of an explicit-state BFS over sketch histories (5 store kinds, both variants)",
-  "The coherence clauses (count, emptiness, extremes, monotone quantiles inside [min,max], batch = singles, approximate sum, iteration and early stop at every position) are evaluated on every distinct state reached by bounded histories of two-slot sketch worlds over all five store kinds and both sketch variants.",
+  "The coherence clauses (count, emptiness, extremes, monotone quantiles inside [min,max], batch = singles, approximate sum, iteration and early stop at every position) are evaluated on every distinct state reached by bounded histories of two-slot sketch worlds over all five store kinds and both sketch variants, and of sketches built by each convenience constructor.",
   "Trusted: the multiset reference and the folding reference for clamped extremes. Not covered: histories deeper than the bound.",
   "DESIGN.md section 4 C12"),
  "C13": ("model_checking",
   "refused/accepted call menus executed in every state of an explicit-state BFS; constructor menus enumerated",
-  "In every distinct state of bounded histories (both variants; dense, sparse, paginated, collapsing stores) each refused call must return its documented error and leave the full observation unchanged, each accepted call must return nil; refused calls are also transitions, so hidden damage shows in their futures (bins compared with the reference); constructor menus are enumerated exhaustively.",
+  "In every distinct state of bounded histories (both variants; dense, sparse, paginated, collapsing stores) each refused call must return its documented error and leave the full observation unchanged, each accepted call must return nil; refused calls are also transitions, so hidden damage shows in their futures (bins compared with the reference); constructor menus (accuracies, bases, also arriving as protobuf messages and binary mapping blocks) are enumerated exhaustively.",
   "Trusted: the canonical observation. NaN weights/factors/constructor parameters are outside the contract and not probed.",
   "DESIGN.md section 4 C13"),
  "C14": ("model_checking",
-  "frame clause over every transition of an explicit-state BFS (stores and sketches): untouched slots observed unchanged; copy = original",
-  "Bounded histories interleaving mutations with every read-only operation and with copies, on all five store kinds and both sketch variants; across every transition the observation of each slot the operation may not write must be identical before and after, and a fresh copy must be observed identical to its original.",
+  "frame clause over every transition of an explicit-state BFS (stores and sketches) + differential twin world running the same history without its read-only operations; copy = original",
+  "Bounded histories interleaving mutations with every read-only operation and with copies, on all five store kinds and both sketch variants; across every transition the observation of each slot the operation may not write must be identical before and after, a fresh copy must be observed identical to its original, and a twin world that executes the same history without its read-only operations (queries, complete and early-stopped iterations, encodings, protobuf conversions, copies) must be observed identical in every state, so a read leaves no trace in any explored future.",
   "Trusted: the canonical observation and the per-operation write sets. Not covered: histories deeper than the bound.",
   "DESIGN.md section 4 C14"),
  "C15": ("model_checking",
@@ -66,27 +66,27 @@ CHECKS = {
   "DESIGN.md section 4 C16"),
  "C03": ("exploration",
   "exhaustive enumeration of the bin-edge lattice of every mapping (every bin +-ulps, exact Index steps by bisection, binades, range ends, T-bit lattice)",
-  "For 3 mapping kinds x 10 (13 thorough) accuracies x 13 index offsets, every bin of the indexable range is probed at its lower bound +-2 ulps and at the exact float where Index steps (found by bisection on the bit pattern), plus every binade boundary, both range ends and a T-bit significand lattice; accuracy, monotonicity, containment, int32 range and reported accuracy are checked at each of ~6e8 points (quick). Bounded-exhaustive over the stated lattice, not a proof over all floats.",
+  "For 3 mapping kinds x 10 (13 thorough) accuracies x 13 index offsets, (plus mappings given by exactly representable bases: 2, 4, 16, 1.5, 1.0625 with whole and fractional offsets) every bin of the indexable range is probed at its lower bound +-2 ulps and at the exact float where Index steps (found by bisection on the bit pattern), plus every binade boundary, both range ends and a T-bit significand lattice; accuracy, monotonicity, containment, int32 range and reported accuracy are checked at each of ~6e8 points (quick). Bounded-exhaustive over the stated lattice, not a proof over all floats.",
   "Trusted: the tolerance policy (DESIGN.md section 5). Not covered: floats strictly between lattice points (an interior violation would need Index to be off by a whole bin, which the T-bit lattice samples densely in every binade).",
   "DESIGN.md section 4 C03"),
  "C06": ("model_checking",
   "explicit-state BFS builds the corpus of sketch states; each is encoded/decoded into every store kind and composed with merging, vs reference content",
-  "Every distinct state of bounded two-slot sketch histories (five producer store kinds, both variants) is encoded (mapping embedded/omitted, nil buffer / prefixed buffer), decoded into five target store kinds and compared bin for bin with the reference (folded for bounded targets); decode-into-non-empty is compared with MergeWith, concatenations with merges; Encode must be append-only and pure.",
+  "Every distinct state of bounded two-slot sketch histories (five producer store kinds, both variants) is encoded (mapping embedded/omitted, nil buffer / prefixed buffer), decoded into five target store kinds and compared bin for bin with the reference (folded for bounded targets); decode-into-non-empty is compared with MergeWith, decode into a cleared receiver that held the same content with the plain decode, concatenations with merges; Encode must be append-only and pure; the decoded sketch of the same store kind must answer every query identically.",
   "Trusted: the reference content and folding. Not covered: weights that do not survive the +1/-1 transform (excluded by the property).",
   "DESIGN.md section 4 C06"),
  "C07": ("model_checking",
   "corpus encodings parsed by an independent decoder written from the documentation; grammar-generated streams decoded by the implementation",
-  "Direction 1: every encoding of the BFS corpus is parsed by refwire (written only from the comments of flag.go/encoding.go) and must yield the same content; the plain decoder must accept exact-variant encodings. Direction 2: every well-formed stream of the documented grammar within stated bounds (~1e5 streams quick) is decoded by the implementation into five store kinds and compared with the documented meaning.",
+  "Direction 1: every encoding of the BFS corpus is parsed by refwire (written only from the comments of flag.go/encoding.go) and must yield the same content; the plain decoder must accept exact-variant encodings. Direction 2: every well-formed stream of the documented grammar within stated bounds (~1e5 streams quick, incl. indexes at both ends of the int32 range) is decoded by the implementation into five store kinds and compared with the documented meaning.",
   "Trusted: refwire as a faithful reading of the documentation. Not covered: streams beyond the grammar bounds (more than 2 store blocks, more than 3 bins per block).",
   "DESIGN.md section 4 C07"),
  "C08": ("fault_enumeration",
   "every truncation point and every undefined flag at every block boundary of every corpus encoding; all mapping mismatches",
-  "For every encoding of the BFS corpus: every cut point is decoded by three consumer store kinds (and into a non-empty receiver) and must be an error strictly inside a block and exactly the complete blocks on a boundary (boundaries from refwire); all 240 undefined flag bytes are substituted at every block boundary once per distinct flag sequence; every ordered pair of distinct mappings as (receiver, stream) must be refused; no panic.",
+  "For every encoding of the BFS corpus: every cut point is decoded by three consumer store kinds (and into a non-empty receiver) and must be an error strictly inside a block and exactly the complete blocks on a boundary (boundaries from refwire), exact-variant encodings also through the plain decoder; all 240 undefined flag bytes are substituted at every block boundary once per distinct flag sequence; every ordered pair of distinct mappings as (receiver, stream) must be refused; no panic.",
   "Trusted: refwire's block boundaries. Not covered: multi-byte corruptions other than truncation and single-flag substitution.",
   "DESIGN.md section 4 C08"),
  "C09": ("model_checking",
   "BFS corpus through ToProto/Marshal/Unmarshal/FromProto for every store kind pair; streaming writer vs message; hand-built mixed messages enumerated",
-  "Every distinct state of bounded plain-sketch histories (five producer store kinds) is converted to a message, marshalled, unmarshalled and rebuilt with five store kinds (bins bit for bit, equal mapping); the streaming writer's bytes must unmarshal to a message proto.Equal to ToProto(); hand-built messages mixing sparse and contiguous bins are enumerated.",
+  "Every distinct state of bounded plain-sketch histories (five producer store kinds) is converted to a message, marshalled, unmarshalled and rebuilt with five store kinds (bins bit for bit, equal mapping); the streaming writer's bytes must unmarshal to a message proto.Equal to ToProto(); hand-built messages mixing sparse and contiguous bins (incl. zero counts at the edges of a run) are enumerated and judged on bins, extremes, emptiness and rank clamps.",
   "Trusted: google.golang.org/protobuf for Marshal/Unmarshal/Equal. Not covered: messages with more than two addends per index.",
   "DESIGN.md section 4 C09"),
  "C17": ("exploration",
@@ -96,17 +96,17 @@ CHECKS = {
   "DESIGN.md section 4 C17"),
  "C18": ("exploration",
   "exhaustive enumeration of byte strings (all strings <= 3 bytes, boundary alphabets to length 8-12) and of structured values through the codecs",
-  "Every byte string of length <= 3 (4 thorough) and boundary-alphabet strings up to length 8 (10) go through the four variable-length decoders and are compared with independent readers written from the documentation; every unsigned value below 2^24 and every structured 64-bit value goes through encoders, size functions, decoders with trailing paddings and every strict prefix.",
+  "Every byte string of length <= 3 (4 thorough) and boundary-alphabet strings up to length 8 (10) go through the four variable-length decoders and are compared with independent readers written from the documentation; every unsigned value below 2^24 and every structured 64-bit value goes through encoders, size functions, decoders with trailing paddings and every strict prefix, and is encoded behind a prefix into stale spare capacity (append-only).",
   "Trusted: the independent readers. Not covered: byte strings of length 5..9 outside the boundary alphabets.",
   "DESIGN.md section 4 C18"),
  "C19": ("exploration",
-  "351 mappings through three serialised forms; all 351^2 ordered pairs for the equality laws",
-  "Each of 351 mappings (3 kinds x 13 accuracies x 9 offsets) goes through the binary form, the protobuf message and the streaming protobuf writer; the mapping read back must be Equals both ways and behave identically on a probe lattice; all ordered pairs are checked for reflexivity, symmetry, inequality across kinds and clearly different accuracies, and equal-implies-same-indexes.",
+  "351 mappings through three serialised forms, each followed by mappings sharing some of its parameters; all 351^2 ordered pairs for the equality laws",
+  "Each of 351 mappings (3 kinds x 13 accuracies x 9 offsets) goes through the binary form, the protobuf message and the streaming protobuf writer; the mapping read back must be Equals both ways and behave identically on a probe lattice; 14 mappings sharing every proper subset of (kind, base, offset) with it are read back right after it and must come back as themselves; all ordered pairs are checked for reflexivity, symmetry, inequality across kinds and clearly different accuracies, and equal-implies-same-indexes.",
   "Trusted: google.golang.org/protobuf. Behavioural identity is probed on a finite lattice.",
   "DESIGN.md section 4 C19"),
  "C20": ("model_checking",
   "explicit-state BFS over histories of two datasets (add, lazy-sorting queries, merge) vs sorted slice; frame clause",
-  "Every bounded history of Add / queries (which sort lazily) / Merge on two real datasets; every distinct concrete state (incl. the private sorted flag and current value order) is compared with a sorted slice on count, extremes, sum and lower/upper quantiles at every q of Q(n) and out-of-range q; queries must not change any answer.",
+  "Every bounded history of Add / queries (which sort lazily) / Merge on two real datasets; every distinct concrete state (incl. the private sorted flag and current value order) is compared with a sorted slice on count, extremes, sum and lower/upper quantiles at every q of Q(n) and out-of-range q, each observer also as the first query after the history on a rebuilt instance; queries must not change any answer.",
   "Trusted: the sorted-slice reference. Not covered: histories deeper than the bound; NaN inputs.",
   "DESIGN.md section 4 C20"),
 }
